@@ -5,6 +5,8 @@
 # Date   : Feb 13, 2019
 """Helper methods for RTLIR."""
 
+import inspect
+
 from pymtl3.datatypes import Bits, is_bitstruct_class
 
 from ..rtype.RTLIRDataType import get_rtlir_dtype
@@ -40,6 +42,10 @@ def get_component_full_name( c_rtype ):
     # components constructed from them differ
     if isinstance( obj, str ):
       return repr( obj )
+    # str() of a function contains its memory address, which changes from
+    # run to run
+    if inspect.isroutine( obj ) and hasattr( obj, '__qualname__' ):
+      return f"{obj.__module__}.{obj.__qualname__}"
     if isinstance( obj, Bits ):
       return f"Bits{obj.nbits}_{int(obj)}"
     return str( obj )
